@@ -51,6 +51,7 @@ type SimFS struct {
 	// warmed): construction-time reads are never subject to edits
 	armed    bool
 	editBase int64
+	jitter   bool // every stat of a file reports a later mtime than the one before
 }
 
 var faultKinds = []string{"eio", "enoent", "perm", "short", "readerr", "fstat"}
@@ -253,6 +254,17 @@ func (i simInfo) Sys() any                   { return nil }
 func (i simInfo) Type() fs.FileMode          { return i.Mode().Type() }
 func (i simInfo) Info() (fs.FileInfo, error) { return i, nil }
 
+// SetJitter switches on modification times that advance with every fs call.
+func (s *SimFS) SetJitter(on bool) { s.jitter = on }
+
+//go:norace
+func (s *SimFS) mtime(ns int64) time.Time {
+	if s.jitter && ns != 0 {
+		return time.Unix(0, ns+s.sh.ncalls*1000)
+	}
+	return mtimeOf(ns)
+}
+
 func mtimeOf(ns int64) time.Time {
 	if ns == 0 {
 		return time.Time{}
@@ -295,7 +307,7 @@ func (s *SimFS) stat(name string) (fs.FileInfo, error) {
 	}
 	s.note(fi, ver, false)
 	v := s.files[fi].versions[ver]
-	return simInfo{name: path.Base(name), size: int64(len(v.Content)), mtime: mtimeOf(v.MtimeNs)}, nil
+	return simInfo{name: path.Base(name), size: int64(len(v.Content)), mtime: s.mtime(v.MtimeNs)}, nil
 }
 
 func (s *SimFS) readDir(name string) ([]fs.DirEntry, error) {
@@ -333,7 +345,7 @@ func (s *SimFS) readDir(name string) ([]fs.DirEntry, error) {
 		if !seen[rest] {
 			seen[rest] = true
 			v := f.versions[ver]
-			out = append(out, simInfo{name: rest, size: int64(len(v.Content)), mtime: mtimeOf(v.MtimeNs)})
+			out = append(out, simInfo{name: rest, size: int64(len(v.Content)), mtime: s.mtime(v.MtimeNs)})
 		}
 	}
 	sort.Slice(out, func(i, j int) bool { return out[i].Name() < out[j].Name() })
@@ -432,7 +444,7 @@ func (s *SimFS) Open(name string) (fs.File, error) {
 	s.note(fi, ver, false) // fs.Stat falls back to Open + File.Stat: opening is not yet reading the content
 	v := s.files[fi].versions[ver]
 	h := &simHandle{fs: s, data: v.Content, errAt: -1, fi: fi, ver: ver,
-		info: simInfo{name: path.Base(name), size: int64(len(v.Content)), mtime: mtimeOf(v.MtimeNs)}}
+		info: simInfo{name: path.Base(name), size: int64(len(v.Content)), mtime: s.mtime(v.MtimeNs)}}
 	if faulted {
 		switch f.Kind {
 		case "short":
@@ -559,6 +571,11 @@ func NewSimWriter(s WriterSpec) *SimWriter { return &SimWriter{spec: s} }
 func (w *SimWriter) Write(p []byte) (int, error) {
 	simrt.Yield(-22)
 	w.Calls++
+	if w.Fired && w.spec.Form == 3 {
+		// transient failure: the writer failed once and accepts data again (the lost bytes leave a hole)
+		w.Got = append(w.Got, p...)
+		return len(p), nil
+	}
 	if len(w.Got) > 8<<20 {
 		// no legitimate render of the workload produces megabytes: unbounded output is non-termination
 		panic(simrt.StepOverrun{Steps: simrt.Step()})
